@@ -554,3 +554,11 @@ def c04_6(R):
                 R.ok("marking-closure(segment,bit)", "same zip item")
             else:
                 R.fail([ru.name, "marking-closure-args"], "the marking closure is not called with (segment, bit) of one zip item", where=t.where(), instance="marking-closure(segment,bit)")
+
+
+@rule("C04.7", ["C04", "C11", "C17"], ["E4"], "receive-side accessors hand out the field they are named after",
+      "OutOfOrderQueue::stored_bytes returns len_bytes (it is subtracted from the advertised window), SelectiveAck::len returns len, UtpHeader::get_type returns htype (every state-machine arm "
+      "dispatches on it): table frozen in engine/pinned_fns.json.")
+def c04_7(R):
+    n = check_getters(R, ("stream_rx::", "raw::"))
+    R.floor("receive-side accessors", n, 3)
